@@ -23,7 +23,16 @@ type sym struct {
 	name       string
 }
 
+// wideScope (LEAK_SCOPE_WIDE=1): math/big is judged too.  Used for the primitives that have no business with
+// big integers at all (comparison, range test, decoding, selection, inversions, the multiplications): a
+// variable-time math/big routine applied to the secret there shows as a difference.  The signing entry point
+// and the point encoding use math/big on public or already-blinded values and keep the narrow scope.
+var wideScope = os.Getenv("LEAK_SCOPE_WIDE") == "1"
+
 func scoped(name string) bool {
+	if wideScope && strings.HasPrefix(name, "math/big.") {
+		return true
+	}
 	return strings.HasPrefix(name, "github.com/bilibili/smgo/") || strings.HasPrefix(name, "crypto/subtle.") ||
 		strings.HasPrefix(name, "math/bits.") || strings.HasPrefix(name, "main.") ||
 		// variable-time library routines a change might apply to a secret (early-exit comparisons, searches)
